@@ -111,27 +111,63 @@ func replayNative(P *interp.Program, ws []*interp.Witness, work string) (map[int
 		ob, _ := json.Marshal(map[string]interface{}{"Replace": ov})
 		of := filepath.Join(work, "overlay_"+sp.Pkg.Name()+".json")
 		os.WriteFile(of, ob, 0o644)
-		cmd := exec.Command("go", "test", "-tags", "verif", "-vet=off", "-count=1", "-v", "-timeout", "20m", "-overlay", of,
-			"-run", "^TestVerifReplay$", pkg)
+		bin := filepath.Join(work, "replay_"+sp.Pkg.Name()+".test")
+		cmd := exec.Command("go", "test", "-tags", "verif", "-vet=off", "-c", "-o", bin, "-overlay", of, pkg)
 		cmd.Dir = P.Repo
-		cmd.Env = append(os.Environ(), "GOFLAGS=-mod=mod", "GOPROXY=off", "GOSUMDB=off", "GOTOOLCHAIN=local", "VERIF_WITNESSES="+wpath)
-		out, err := cmd.CombinedOutput()
-		log.Write(out)
-		sc := bufio.NewScanner(bytes.NewReader(out))
-		sc.Buffer(make([]byte, 1<<20), 1<<26)
-		n := 0
-		for sc.Scan() {
-			l := sc.Text()
-			if k := strings.Index(l, "VERIF-RESULT "); k >= 0 {
-				var r nativeResult
-				if json.Unmarshal([]byte(l[k+len("VERIF-RESULT "):]), &r) == nil {
-					res[r.Idx] = &r
-					n++
+		cmd.Env = append(os.Environ(), "GOFLAGS=-mod=mod", "GOPROXY=off", "GOSUMDB=off", "GOTOOLCHAIN=local")
+		if out, err := cmd.CombinedOutput(); err != nil {
+			log.Write(out)
+			return res, log.String(), fmt.Errorf("native replay build of %s failed: %v: %s", pkg, err, firstLine(string(out)))
+		}
+		parse := func(out []byte) int {
+			sc := bufio.NewScanner(bytes.NewReader(out))
+			sc.Buffer(make([]byte, 1<<20), 1<<26)
+			n := 0
+			for sc.Scan() {
+				l := sc.Text()
+				if k := strings.Index(l, "VERIF-RESULT "); k >= 0 {
+					var r nativeResult
+					if json.Unmarshal([]byte(l[k+len("VERIF-RESULT "):]), &r) == nil {
+						res[r.Idx] = &r
+						n++
+					}
 				}
 			}
+			return n
 		}
-		if err != nil && n == 0 {
-			return res, log.String(), fmt.Errorf("native replay of %s failed: %v", pkg, err)
+		pkgDir := filepath.Join(P.Repo, strings.TrimPrefix(pkg, module))
+		run := exec.Command(bin, "-test.run", "^TestVerifReplay$", "-test.v", "-test.timeout", "20m")
+		run.Dir = pkgDir
+		run.Env = append(os.Environ(), "VERIF_WITNESSES="+wpath)
+		out, err := run.CombinedOutput()
+		log.Write(out)
+		if n := parse(out); err != nil && n == 0 {
+			return res, log.String(), fmt.Errorf("native replay of %s failed: %v: %s", pkg, err, firstLine(string(out)))
+		}
+		// allocation witnesses: one process each, under an address-space limit;
+		// dying of memory exhaustion confirms the over-allocation
+		for idx, w := range ws {
+			if w.Pkg != pkg || w.Event != "alloc" {
+				continue
+			}
+			sh := fmt.Sprintf("ulimit -v 6291456; exec %s -test.run '^TestVerifReplay$' -test.v -test.timeout 5m", bin)
+			run := exec.Command("bash", "-c", sh)
+			run.Dir = pkgDir
+			run.Env = append(os.Environ(), "VERIF_WITNESSES="+wpath, fmt.Sprintf("VERIF_ONLY=%d", idx), "GOMEMLIMIT=4GiB")
+			out, err := run.CombinedOutput()
+			log.Write(out)
+			if parse(out) == 0 && err != nil {
+				so := string(out)
+				if strings.Contains(so, "out of memory") || strings.Contains(so, "cannot allocate memory") || strings.Contains(so, "makeslice: len out of range") || strings.Contains(so, "too large") {
+					r := &nativeResult{Idx: idx}
+					r.Fails = append(r.Fails, struct {
+						ID    string   `json:"id"`
+						Known []string `json:"known"`
+						Msg   string   `json:"msg"`
+					}{ID: "alloc-oversize", Msg: "process died of memory exhaustion"})
+					res[idx] = r
+				}
+			}
 		}
 	}
 	return res, log.String(), nil
@@ -235,6 +271,9 @@ func checkMain(args []string) int {
 		for _, w := range j.Panics {
 			addW(w, 3)
 		}
+		for _, w := range j.AllocEvents {
+			addW(w, 2)
+		}
 		if len(j.Reached) == 0 && j.Completed > 0 && pd.NeedReach {
 			inconclusive = append(inconclusive, j.Spec.Name()+": no reachability witness (vacuous harness?)")
 		}
@@ -284,12 +323,15 @@ func checkMain(args []string) int {
 			} else {
 				inconclusive = append(inconclusive, fmt.Sprintf("%s: escaped panic (%s) not reproduced natively", w.Harness, firstLine(w.Detail)))
 			}
-		case "fail":
+		case "fail", "alloc":
 			matched := false
 			for _, f := range r.Fails {
-				if f.ID == w.ID && sameSet(f.Known, w.Known) {
+				if f.ID == w.ID && (sameSet(f.Known, w.Known) || w.Event == "alloc") {
 					matched = true
 				}
+			}
+			if w.Event == "alloc" && r.Panic != "" {
+				matched = true // makeslice/Grow panics are over-allocation too
 			}
 			if !matched {
 				inconclusive = append(inconclusive, fmt.Sprintf("%s: assertion %q (known=%v) failed in the engine but not natively: engine model or encoding is wrong here", w.Harness, w.ID, w.Known))
